@@ -100,7 +100,7 @@ open LolHtml.Model.Full LolHtml.Thm.Full
 /-- selector `[a]` with `set_attribute("c","d")` + `after("!")` (`Thm.Full.auxCfg`). -/
 @[reducible] def S : Sys := coreSys (FullSt auxCfg) Nat (fun _ => 0) (fun _ => true)
 
-def cfg : S.Cfg := (genWorld auxCfg, FullSt.init auxCfg, {})
+def cfg : Model.World (FullSt auxCfg) × FullSt auxCfg × Settings := (genWorld auxCfg, FullSt.init auxCfg, {})
 def adv : (Nat → Nat) → Nat → Nat := fun g j => g j + j + 1
 
 /-- `<div a=b>x<` | `/div>y` on rewriter 0 (created on thread 0, moved to thread 2 between the writes),
